@@ -4,6 +4,7 @@ import (
 	"go/ast"
 	"go/token"
 	"go/types"
+	"strings"
 
 	"verif/mlbcheck/chk"
 )
@@ -61,6 +62,10 @@ func init() {
 }
 
 func runC10(p *chk.Prog, r *chk.Report) {
+	// a withdrawn Service leaves nothing behind for a later session to publish (PROTO-DELETE, shared with C09); a
+	// configuration the speaker refused is offered again (COMPARE-BEFORE-APPLY, shared with C18)
+	c09Rebuild(p, r)
+	c18Compare(p, r)
 	// the advertisements in force for a pool are all those that name or select it (ATTACH, shared with C08, C05)
 	c08Attach(p, r)
 	configNodeEventsRule(p, r)
@@ -513,14 +518,54 @@ func configNodeEventsRule(p *chk.Prog, r *chk.Report) {
 	if f == nil {
 		return
 	}
+	// the decision handed on to a helper (a generic one shared with the other kinds): judged there
+	for hop := 0; hop < 2; hop++ {
+		rets := f.Graph().Returns()
+		if len(rets) != 1 {
+			break
+		}
+		res := retResults(rets[0])
+		if len(res) != 1 {
+			break
+		}
+		call, isCall := ast.Unparen(res[0]).(*ast.CallExpr)
+		if !isCall || len(call.Args) != 1 || !isParamIdx(f, 0)(call.Args[0]) {
+			break
+		}
+		fo, _ := f.Callee(call).(*types.Func)
+		if fo == nil {
+			break
+		}
+		cf := p.FnOf(fo.Origin())
+		if cf == nil || cf.Body == nil {
+			break
+		}
+		f = cf
+		r.Saw(f)
+	}
 	g := f.Graph()
 	ev := isParamIdx(f, 0)
-	oldN := definedBy(g, "E.ObjectOld.(*corev1.Node)", chk.H("E", ev))
-	newN := definedBy(g, "E.ObjectNew.(*corev1.Node)", chk.H("E", ev))
-	equal := chk.GSame(g.GPat(true, "labels.Equals(labels.Set(O.Labels), labels.Set(N.Labels))", chk.H("O", oldN), chk.H("N", newN)),
-		g.GPat(true, "labels.Equals(labels.Set(N.Labels), labels.Set(O.Labels))", chk.H("O", oldN), chk.H("N", newN)),
-		g.GPat(true, "reflect.DeepEqual(O.Labels, N.Labels)", chk.H("O", oldN), chk.H("N", newN)),
-		g.GPat(true, "maps.Equal(O.Labels, N.Labels)", chk.H("O", oldN), chk.H("N", newN)))
+	asserted := func(fld string) func(ast.Expr) bool {
+		return func(e ast.Expr) bool {
+			id, isId := ast.Unparen(e).(*ast.Ident)
+			if !isId {
+				return false
+			}
+			rhs, _ := g.DefOf(id, g.FactSite(id))
+			ta, isTA := ast.Unparen(rhs).(*ast.TypeAssertExpr)
+			return rhs != nil && isTA && f.MatchWith("E."+fld, ta.X, chk.H("E", ev)) != nil
+		}
+	}
+	oldN, newN := asserted("ObjectOld"), asserted("ObjectNew")
+	var eqs []chk.Guard
+	for _, lo := range []string{"O.Labels", "O.GetLabels()"} {
+		ln := strings.Replace(lo, "O", "N", 1)
+		eqs = append(eqs, g.GPat(true, "labels.Equals(labels.Set("+lo+"), labels.Set("+ln+"))", chk.H("O", oldN), chk.H("N", newN)),
+			g.GPat(true, "labels.Equals(labels.Set("+ln+"), labels.Set("+lo+"))", chk.H("O", oldN), chk.H("N", newN)),
+			g.GPat(true, "reflect.DeepEqual("+lo+", "+ln+")", chk.H("O", oldN), chk.H("N", newN)),
+			g.GPat(true, "maps.Equal("+lo+", "+ln+")", chk.H("O", oldN), chk.H("N", newN)))
+	}
+	equal := chk.GSame(eqs...)
 	n := 0
 	for _, rt := range g.Returns() {
 		res := retResults(rt)
